@@ -288,10 +288,17 @@ Section BRIDGE2.
   Lemma ev_map_update a b g : EV (Fn "mapUpdate" [a; b]) g =
     match EV a g, EV b g with Some (VMap m1), Some (VMap m2) => Some (VMap (map_update m1 m2)) | _, _ => None end.
   Proof. reflexivity. Qed.
+  Lemma strs_eqb_refl l : strs_eqb l l = true.
+  Proof. induction l as [|a l IH]; [reflexivity|]. cbn [strs_eqb]. now rewrite String.eqb_refl, IH. Qed.
   Lemma ev_json_path path g : EV (json_path_sql path) g =
     match EV (Id "string") g, str_lits (map StrV path) with
     | Some (VStr s), Some p => Some (VStr (json_get s p)) | _, _ => None end.
-  Proof. reflexivity. Qed.
+  Proof.
+    unfold json_path_sql. cbn [ev String.eqb Ascii.eqb Bool.eqb andb].
+    destruct (match g with r :: _ => lookup "string" r | [] => None end) as [[z|s|q0|m|]|]; try reflexivity.
+    destruct (str_lits (map StrV path)) as [p|]; [|reflexivity].
+    now rewrite String.eqb_refl, strs_eqb_refl.
+  Qed.
   Lemma ev_sep_json ls ps g :
     EV (Sep "" [Raw "mapFilter((k,v) -> v != '', mapFromArrays(["; Sep "," ls; Raw "], ["; Sep "," ps; Raw "]))"]) g =
     match str_lits ls, map_opt (fun p => match EV p g with Some (VStr v) => Some v | _ => None end) ps with
